@@ -387,20 +387,28 @@ def _is_cwd(x: ast.AST) -> bool:
     return False
 
 
-def below(f: Any, x: Any, parent_attr: str, depth: int = 6) -> bool:
-    """x is self.<parent_attr> or a path made from it by joining components that do not step back (`/`, joinpath)"""
+def below(f: Any, x: Any, parent_attr: str, depth: int = 6, seen: frozenset = frozenset()) -> bool:
+    """x is self.<parent_attr> or a path made from it by joining components that do not step back (`/`, joinpath); a local that is
+    extended step by step (`p = self.d; p = p / name`) is below when every one of its values is, itself taken as below"""
     if not isinstance(x, ast.AST):
         return False
     me = f.params[0].arg if f.params else "self"
     if isinstance(x, ast.Attribute):
         return x.attr == parent_attr and isinstance(x.value, ast.Name) and x.value.id == me
     if isinstance(x, ast.BinOp) and isinstance(x.op, ast.Div):
-        return below(f, x.left, parent_attr, depth) and _component(x.right)
+        return below(f, x.left, parent_attr, depth, seen) and _component(x.right)
     if isinstance(x, ast.Call) and isinstance(x.func, ast.Attribute) and x.func.attr == "joinpath" and not x.keywords:
-        return below(f, x.func.value, parent_attr, depth) and all(_component(a) for a in x.args)
-    if isinstance(x, ast.Name) and depth > 0 and x.id not in _params(f.node):
-        srcs = local_sources(f.node, x)
-        return bool(srcs) and not any(s is x for s in srcs) and all(below(f, s, parent_attr, depth - 1) for s in srcs)
+        return below(f, x.func.value, parent_attr, depth, seen) and all(_component(a) for a in x.args)
+    if isinstance(x, ast.Name) and x.id not in _params(f.node):
+        if x.id in seen:
+            return True
+        ds = Locals(f.node).defs.get(x.id, [])
+        return bool(ds) and depth > 0 and all(
+            (k == "assign" and below(f, v, parent_attr, depth - 1, seen | {x.id})) or
+            (k == "aug" and isinstance(st, ast.AugAssign) and isinstance(st.op, ast.Div) and v is not None and _component(v)) for k, st, v in ds)
+    if isinstance(x, (ast.IfExp, ast.NamedExpr)):
+        arms = [x.body, x.orelse] if isinstance(x, ast.IfExp) else [x.value]
+        return all(below(f, a, parent_attr, depth, seen) for a in arms)
     return False
 
 
